@@ -53,7 +53,7 @@ def run(ctx):
 
     kind = ["source", "missing", "refused"][ctx.seed % 3]
     cbase = os.path.join(ctx.scratch, "c21corrupt")
-    n0, v0 = len(ctx.failures), ctx.validated
+    n0, v0, e0, t0 = len(ctx.failures), ctx.validated, ctx.evaluations, ctx.nontrivial
     res = ctx.drive(ct.PKG, "TestC21", env={"VERIF_TRACE_OUT": cbase, "VERIF_CORRUPT": kind, "VERIF_MAXCASES": 150, "VERIF_TIER": "quick"},
                     label="C21/selftest", timeout=600)
     if res is not None:
@@ -61,7 +61,7 @@ def run(ctx):
                     "TestC21", {}, "C21/selftest", _match, parallel=1, timeout=600)
         rejected = len(ctx.failures) > n0
         del ctx.failures[n0:]
-        ctx.validated = v0
+        ctx.validated, ctx.evaluations, ctx.nontrivial = v0, e0, t0
         if not rejected:
             ctx.inconclusive.append("binding self-test: TLC accepted a trace with a corrupted record (%s)" % kind)
         else:
